@@ -7079,6 +7079,8 @@ CK_RV SoftHSM::UnwrapKeyAsym
 	return rv;
 }
 
+static bool getDerivedKeyCheckValue(CK_KEY_TYPE keyType, const ByteString& keyValue, ByteString& checkValue);
+
 // Unwrap the specified key using the specified unwrapping key
 CK_RV SoftHSM::C_UnwrapKey
 (
@@ -7240,6 +7242,9 @@ CK_RV SoftHSM::C_UnwrapKey
 		{ CKA_KEY_TYPE, &keyType, sizeof(keyType) }
 	};
 	CK_ULONG secretAttribsCount = 4;
+	ByteString suppliedKCV;
+	bool haveKCV = false;
+	bool bKCVMismatch = false;
 
 	// Add the additional
 	if (ulCount > (maxAttribs - secretAttribsCount))
@@ -7253,6 +7258,17 @@ CK_RV SoftHSM::C_UnwrapKey
 			case CKA_PRIVATE:
 			case CKA_KEY_TYPE:
 				continue;
+			case CKA_CHECK_VALUE:
+				// The check value of a secret key can only be verified
+				// once the key value has been unwrapped and stored
+				if (objClass == CKO_SECRET_KEY)
+				{
+					suppliedKCV = ByteString((unsigned char*)pTemplate[i].pValue, pTemplate[i].ulValueLen);
+					haveKCV = true;
+					continue;
+				}
+				secretAttribs[secretAttribsCount++] = pTemplate[i];
+				break;
 			default:
 				secretAttribs[secretAttribsCount++] = pTemplate[i];
 		}
@@ -7346,6 +7362,25 @@ CK_RV SoftHSM::C_UnwrapKey
 				else
 					value = keydata;
 				bOK = bOK && osobject->setAttribute(CKA_VALUE, value);
+
+				// A check value that was supplied has to be the check value of the unwrapped key
+				if (haveKCV && suppliedKCV.size() != 0)
+				{
+					ByteString plainKCV, kcv;
+					if (!getDerivedKeyCheckValue(keyType, keydata, plainKCV) || plainKCV != suppliedKCV)
+					{
+						bKCVMismatch = true;
+						bOK = false;
+					}
+					else
+					{
+						if (isPrivate)
+							token->encrypt(plainKCV, kcv);
+						else
+							kcv = plainKCV;
+						bOK = bOK && osobject->setAttribute(CKA_CHECK_VALUE, kcv);
+					}
+				}
 			}
 			else if (keyType == CKK_RSA)
 			{
@@ -7386,7 +7421,7 @@ CK_RV SoftHSM::C_UnwrapKey
 				osobject->abortTransaction();
 
 			if (!bOK)
-				rv = CKR_FUNCTION_FAILED;
+				rv = bKCVMismatch ? CKR_ATTRIBUTE_VALUE_INVALID : CKR_FUNCTION_FAILED;
 		}
 		else
 			rv = CKR_FUNCTION_FAILED;
